@@ -1016,6 +1016,18 @@ class Emitter:
             text = src[b['offset']: e['offset'] + e.get('tokLen', 0)].decode(errors='replace')
         except Exception as ex:
             self.fail(n, 'std trait value: source text not available (%r)' % ex)
+        md = re.match(r'^\s*decltype\s*\(\s*(\w+)\s*\)\s*::\s*value\s*$', text)
+        if md:
+            # value of a std::integral_constant<E, V> tag parameter: the enumerator V named in the parameter's type
+            ps = [q for q in self.params_of(self.fc.root) if q.get('name') == md.group(1)]
+            if len(ps) == 1:
+                tq = ps[0]['type'].get('desugaredQualType') or ps[0]['type']['qualType']
+                mi = re.match(r'^(?:const\s+)?std::integral_constant<\s*([\w:]+)\s*,\s*([\w:]+)\s*>\s*&?$', tq.strip())
+                if mi:
+                    ename = mi.group(2).split('::')[-1]; eq = mi.group(1)
+                    hits = [v for (nm, v, q) in self.ix.enum_consts.values() if nm == ename and (q == eq or q.endswith('::' + eq.split('::')[-1]))]
+                    if len(set(hits)) == 1: return '%d /*%s*/' % (hits[0], ename)
+            self.fail(n, 'std trait value: cannot evaluate ' + text[:80])
         m = re.match(r'^\s*(?:std::)?is_base_of\s*<\s*([\w:]+)\s*,\s*([\w:]+)\s*>\s*::\s*value\s*$', text)
         if not m: self.fail(n, 'std trait value not evaluable: ' + text[:80])
         base_t = self.canon(parse_type(m.group(1)))
